@@ -64,11 +64,15 @@ impl VarFile {
     //
     #[inline]
     pub fn sync_all(&mut self) -> Result<()> {
+        #[cfg(abyssiniandb_verif)]
+        super::super::verif_probe::trace(&self.buf_file.name(), "sync_all");
         self.buf_file.sync_all()
     }
     //
     #[inline]
     pub fn sync_data(&mut self) -> Result<()> {
+        #[cfg(abyssiniandb_verif)]
+        super::super::verif_probe::trace(&self.buf_file.name(), "sync_data");
         self.buf_file.sync_data()
     }
     //
@@ -129,6 +133,8 @@ impl VarFile {
     //
     #[inline]
     pub fn set_file_length<T>(&mut self, file_length: Offset<T>) -> Result<()> {
+        #[cfg(abyssiniandb_verif)]
+        super::super::verif_probe::trace(&self.buf_file.name(), "set_len");
         self.buf_file.set_len(file_length.into())
     }
     #[inline]
@@ -212,10 +218,14 @@ impl Read for VarFile {
 impl Write for VarFile {
     #[inline]
     fn write(&mut self, buf: &[u8]) -> Result<usize> {
+        #[cfg(abyssiniandb_verif)]
+        super::super::verif_probe::trace_write(&self.buf_file.name());
         self.buf_file.write(buf)
     }
     #[inline]
     fn flush(&mut self) -> Result<()> {
+        #[cfg(abyssiniandb_verif)]
+        super::super::verif_probe::trace(&self.buf_file.name(), "flush");
         self.buf_file.flush()
     }
 }
@@ -261,34 +271,50 @@ impl rabuf::SmallRead for VarFile {
 impl rabuf::SmallWrite for VarFile {
     #[inline]
     fn write_u8(&mut self, val: u8) -> Result<()> {
+        #[cfg(abyssiniandb_verif)]
+        super::super::verif_probe::trace_write(&self.buf_file.name());
         self.buf_file.write_u8(val)
     }
     #[inline]
     fn write_u16_le(&mut self, val: u16) -> Result<()> {
+        #[cfg(abyssiniandb_verif)]
+        super::super::verif_probe::trace_write(&self.buf_file.name());
         self.buf_file.write_u16_le(val)
     }
     #[inline]
     fn write_u32_le(&mut self, val: u32) -> Result<()> {
+        #[cfg(abyssiniandb_verif)]
+        super::super::verif_probe::trace_write(&self.buf_file.name());
         self.buf_file.write_u32_le(val)
     }
     #[inline]
     fn write_u64_le(&mut self, val: u64) -> Result<()> {
+        #[cfg(abyssiniandb_verif)]
+        super::super::verif_probe::trace_write(&self.buf_file.name());
         self.buf_file.write_u64_le(val)
     }
     #[inline]
     fn write_u64_le_slice(&mut self, val_slice: &[u64]) -> Result<()> {
+        #[cfg(abyssiniandb_verif)]
+        super::super::verif_probe::trace_write(&self.buf_file.name());
         self.buf_file.write_u64_le_slice(val_slice)
     }
     #[inline]
     fn write_u64_le_slice2(&mut self, val_slice1: &[u64], val_slice2: &[u64]) -> Result<()> {
+        #[cfg(abyssiniandb_verif)]
+        super::super::verif_probe::trace_write(&self.buf_file.name());
         self.buf_file.write_u64_le_slice2(val_slice1, val_slice2)
     }
     #[inline]
     fn write_all_small(&mut self, buf: &[u8]) -> Result<()> {
+        #[cfg(abyssiniandb_verif)]
+        super::super::verif_probe::trace_write(&self.buf_file.name());
         self.buf_file.write_all_small(buf)
     }
     #[inline]
     fn write_zero(&mut self, size: u32) -> Result<()> {
+        #[cfg(abyssiniandb_verif)]
+        super::super::verif_probe::trace_write(&self.buf_file.name());
         self.buf_file.write_zero(size)
     }
 }
